@@ -291,6 +291,9 @@ def select_where(it, args, node, kind):
 
 def literal_tensor(it, v, node, kind="tensor"):
     """torch.tensor / np.array of python data."""
+    if isinstance(v, VList) and v.obj.items is None and isinstance(getattr(v.obj, "source", None), VUnknown) and v.obj.source.kind == "set":
+        # list(<set>) enumerates the members in the order of the hash table: for small integers often ascending, in general not
+        it.__dict__.setdefault("set_order_uses", []).append((it.site(node), "a tensor is filled from list(<set>): the members arrive in hash-table order, which is not an order of the values", tuple(it.stack)))
     if isinstance(v, VTens):
         r = it.fresh(v.term, v.shape, kind, node)
         r.obj.valkind = v.obj.valkind
